@@ -40,6 +40,14 @@ STRENGTH = {
  "C16-6": "operations auth_ndef_read / auth_ndef_write / auth_dump: NDEF and dump paths of an authenticated vendor tag object (checks/c16.py)",
  "C18-6": "on-startup returning a new, shorter target list: only what it returned may be polled for (checks/c18.py)",
  "C20-6": "replay step: a tag without the key that replays the answers recorded during a first authentication must be refused by a second authenticate() on the same Tag object (checks/c20.py)",
+ "C01-7": "emulated Type 3 Tags with 260 blocks (block numbers above 255 need three byte block list elements) (checks/c01.py)",
+ "C07-7": "generator 'readmany' for the emulated Type 3 Tag: well-formed reads of up to 15 blocks of which one, at any position, does not exist (checks/c07.py)",
+ "C08-7": "Type 3 card model option always_rd: polling answers carry the system code also for request code 0 (dsim/w1/t3t.py, checks/c08.py)",
+ "C12-7": "response time model: the card answers after a share (0, 0.5, 0.95) of the frame waiting time it announces; an answer later than the reader waits is lost (dsim/w1/device.py, dsim/w1/t4t.py, checks/c12.py)",
+ "C16-7": "Type 4 cards that ask for waiting time extensions in 30% of the t4 scenarios and the reason code clause applied to Type 4 primitives (checks/c16.py)",
+ "C18-7": "environment 'closed': another thread closes the frontend while connect() runs, often just before terminate() turns true (checks/c18.py)",
+ "C19-7": "link timeout options below 100 ms and the clauses 'the LTO / LSC on the air are the configured ones' (checks/c19.py)",
+ "C20-7": "a second authenticate() and protect()+authenticate() on the same Tag object; the Lite-S model advances WCNT with every write to non-volatile memory (checks/c20.py, dsim/w1/felica_lite.py)",
  "C20-4": "the NTAG21x model answers a wrong password with a NAK code drawn per run (0h, 1h, 4h, 5h) and a wrong password whose PACK ends in that code is tried (dsim/w1/t2t.py, checks/c20.py)",
 }
 rows = []
